@@ -21,7 +21,7 @@
 (* contract's expectation; the harness replays a sample through the        *)
 (* binary and asks the toolchain.                                          *)
 (***************************************************************************)
-EXTENDS HeaderContract
+EXTENDS HeaderImpl
 
 CONSTANTS Tags, MaxDepth,        \* build expressions: ExprsUpTo(Tags, MaxDepth), and "not set"
           Shapes,                \* boilerplate shapes (see BoilerLines), "none" = boilerplate-file not set
@@ -37,18 +37,6 @@ ASSUME PrintT(<<"OBSDIMS", ToJson([templ |-> Templates, place |-> Placements, pa
 
 AllExprs == ExprsUpTo(Tags, MaxDepth)
 
-\* comment-only boilerplate texts, as line classes (the harness writes matching bytes)
-BoilerLines(s) ==
-  CASE s = "none"   -> << >>
-    [] s = "empty"  -> <<L("blank")>>                           \* an empty file still starts a new line
-    [] s = "line1"  -> <<L("lc")>>
-    [] s = "line3"  -> <<L("lc"), L("lc"), L("lc")>>
-    [] s = "groups" -> <<L("lc"), L("lc"), L("blank"), L("lc")>>   \* two comment groups
-    [] s = "block1" -> <<L("bone")>>
-    [] s = "blockN" -> <<L("bopen"), L("bmid"), L("bmid"), L("bclose")>>
-    [] s = "mixed"  -> <<L("bopen"), L("bclose"), L("lc")>>
-    [] s = "lead"   -> <<L("blank"), L("blank"), L("lc"), L("lc")>>   \* the file starts with two empty lines
-
 Init ==
   /\ expr \in AllExprs \cup {NoExpr}
   /\ shape \in Shapes
@@ -59,54 +47,29 @@ Init ==
 \* lines 1-3 of the template
 EmitMarker ==
   /\ pc = "marker" /\ pc' = "boilerplate"
-  /\ lines' = <<L("marker"), L("lc"), L("lc")>>
+  /\ lines' = MarkerPart
   /\ UNCHANGED <<expr, shape, nl, fmt>>
 \* {{- if boilerplate-file}} \n {{ readFile }} {{- end}} : a newline, then the bytes of the file.
 \* A trailing newline of the file terminates its last line; what follows starts with a newline of its own,
 \* which then shows as one more blank line.
 EmitBoilerplate ==
   /\ pc = "boilerplate" /\ pc' = "buildtag"
-  /\ lines' = IF shape = "none" THEN lines
-              ELSE lines \o BoilerLines(shape) \o (IF nl THEN <<L("blank")>> ELSE << >>)
+  /\ lines' = lines \o BoilerPart(shape, nl)
   /\ UNCHANGED <<expr, shape, nl, fmt>>
 \* {{- if mock-build-tags}} \n\n //go:build X {{- end}}
 EmitBuildTag ==
   /\ pc = "buildtag" /\ pc' = "package"
-  /\ lines' = IF expr.op = "none" THEN lines ELSE lines \o <<L("blank"), GoBuild(expr)>>
+  /\ lines' = lines \o BuildTagPart(expr)
   /\ UNCHANGED <<expr, shape, nl, fmt>>
 \* \n\n package X
 EmitPackage ==
   /\ pc = "package" /\ pc' = "format"
-  /\ lines' = lines \o <<L("blank"), L("package")>>
+  /\ lines' = lines \o PackagePart
   /\ UNCHANGED <<expr, shape, nl, fmt>>
 
-\* gofmt / goimports (go/printer): runs of blank lines collapse to one, and fixGoBuildLines puts the
-\* //go:build line at the latest place a constraint may stand -- after the last blank line of the leading run of
-\* // comments and blank lines -- unless it already stands earlier.  A /* */ block ends that run: with a block
-\* comment in the boilerplate the constraint moves to the very top of the file, above the marker.
-\* noop leaves the text alone.
-RECURSIVE Collapse(_)
-Collapse(ls) ==
-  IF Len(ls) <= 1 THEN ls
-  ELSE IF ls[1].c = "blank" /\ ls[2].c = "blank" THEN Collapse(Tail(ls))
-  ELSE <<ls[1]>> \o Collapse(Tail(ls))
-
-SlashOrBlank(x) == x.c \in {"marker", "lc", "gobuild", "blank"}
-LeadLen(ls) == CHOOSE n \in 0..Len(ls) : (\A i \in 1..n : SlashOrBlank(ls[i])) /\ (n < Len(ls) => ~SlashOrBlank(ls[n + 1]))
-MaxOf(S) == CHOOSE x \in S : \A y \in S : y <= x
-MinOf(S) == CHOOSE x \in S : \A y \in S : x <= y
-InsertAfter(ls) == LET B == {i \in 1..LeadLen(ls) : ls[i].c = "blank"} IN IF B = {} THEN 0 ELSE MaxOf(B)
-FixGoBuild(ls) ==
-  LET G == {i \in 1..Len(ls) : ls[i].c = "gobuild"} IN
-  IF G = {} THEN ls
-  ELSE LET g == MinOf(G)
-           ins == InsertAfter(ls)
-       IN IF g <= ins THEN ls
-          ELSE LET rest == SubSeq(ls, 1, g - 1) \o SubSeq(ls, g + 1, Len(ls))
-               IN SubSeq(rest, 1, ins) \o <<ls[g], L("blank")>> \o SubSeq(rest, ins + 1, Len(rest))
 Format ==
   /\ pc = "format" /\ pc' = "done"
-  /\ lines' = IF fmt = "noop" THEN lines ELSE Collapse(FixGoBuild(lines))
+  /\ lines' = Formatted(fmt, lines)
   /\ UNCHANGED <<expr, shape, nl, fmt>>
 
 Next == EmitMarker \/ EmitBoilerplate \/ EmitBuildTag \/ EmitPackage \/ Format
@@ -119,6 +82,8 @@ ImplVerbatim == VerbatimByRule(lines, BoilerLines(shape))
 ImplIncl     == [n \in AsgNames |-> IncludedByRule(lines, n)]
 
 ImplConforms == pc = "done" => RuleDecides(lines) /\ Demands(expr, ImplGen, ImplVerbatim, ImplIncl)
+\* the section-by-section execution is the pure operator HeaderImpl!Produced (used by the histories of HeaderHist.tla)
+StepsArePure == pc = "done" => lines = Produced(expr, shape, nl, fmt)
 \* the marker is the first line until the formatter runs (which may lift the constraint above it)
 MarkerFirst  == pc \notin {"marker", "done"} => lines[1].c = "marker"
 OneConstraint == pc = "done" => Cardinality(BuildLines(lines)) = (IF expr.op = "none" THEN 0 ELSE 1)
